@@ -2,9 +2,9 @@
    Only statements, closed by [exact], and Print Assumptions.
    Strings are byte lists; [pr_tbl]/[gr_tbl] are strconv.IsPrint / IsGraphic for
    runes > 0xFF (Go's Unicode tables) and are universally quantified WITHOUT any
-   hypothesis; [wrap] selects the implementation layer (true: Go's int32 rune
-   arithmetic) or the specification layer (false) of Unquote -- the round-trip
-   theorems hold for both. *)
+   hypothesis; [wrap] = false is literal.Unquote ([unquote_impl]); [wrap] = true
+   is the regression layer [unquote_int32] (the int32 accumulator of \U escapes
+   that fix unquote-U removed) -- the round-trip theorems hold for both. *)
 From Verif Require Import Utf8.Model Utf8.Proofs Lit.Quote Lit.Unquote Lit.Basics Lit.Steps Lit.Loops
   Lit.HashCount Lit.Raw Lit.RoundTrip Lit.NoPanic Lit.Examples.
 From Coq Require Import List NArith ZArith.
@@ -140,22 +140,31 @@ Theorem C09_unquote_fuel_sufficient : forall wrap s, unquote wrap s <> OutOfFuel
 Proof. exact (fun wrap s => proj1 (unquote_total wrap s)). Qed.
 Print Assumptions C09_unquote_fuel_sufficient.
 
-(* the specification layer never reaches unquoteChar on an empty string,
-   buf[:len(buf)-1] on an empty buffer, or panic(unreachable) *)
+(* literal.Unquote never reaches unquoteChar on an empty string,
+   buf[:len(buf)-1] on an empty buffer, or panic(unreachable), and never runs
+   out of fuel: for EVERY input *)
+Theorem C09_unquote_impl_no_panic : forall s, unquote_impl s <> Panic /\ unquote_impl s <> OutOfFuel.
+Proof. exact unquote_impl_no_panic. Qed.
+Print Assumptions C09_unquote_impl_no_panic.
+
 Theorem C09_unquote_spec_no_panic : forall s, unquote_spec s <> Panic /\ unquote_spec s <> OutOfFuel.
 Proof. exact unquote_spec_no_panic. Qed.
 Print Assumptions C09_unquote_spec_no_panic.
 
-(* the implementation layer does: int32 overflow of a \U escape *)
-Theorem C09_unquote_no_panic_refuted : exists s, unquote_impl s = Panic.
-Proof. exact unquote_no_panic_refuted. Qed.
-Print Assumptions C09_unquote_no_panic_refuted.
+(* the implementation layer IS the specification layer (uint32 accumulator) *)
+Theorem C09_unquote_impl_eq_spec : forall s, unquote_impl s = unquote_spec s.
+Proof. exact unquote_impl_eq_spec. Qed.
+Print Assumptions C09_unquote_impl_eq_spec.
 
-(* and it agrees with the specification layer whenever no 'U' is directly followed
-   by a hex digit >= 8 *)
-Theorem C09_unquote_impl_eq_spec_when : forall s, no_big_U s = true -> unquote_impl s = unquote_spec s.
-Proof. exact unquote_impl_eq_spec_when. Qed.
-Print Assumptions C09_unquote_impl_eq_spec_when.
+(* regression layer: what an int32 accumulator would do, and exactly where it
+   can differ (a byte U directly followed by a hex digit >= 8) *)
+Theorem C09_unquote_int32_no_panic_refuted : exists s, unquote_int32 s = Panic.
+Proof. exact unquote_int32_no_panic_refuted. Qed.
+Print Assumptions C09_unquote_int32_no_panic_refuted.
+
+Theorem C09_unquote_int32_eq_impl_when : forall s, no_big_U s = true -> unquote_int32 s = unquote_impl s.
+Proof. exact unquote_int32_eq_impl_when. Qed.
+Print Assumptions C09_unquote_int32_eq_impl_when.
 
 (* Quote's escape loop: fuel = len(s) suffices *)
 Theorem C09_quote_fuel_sufficient : forall pr_tbl gr_tbl f ml hc fuel s, (length s <= fuel)%nat ->
@@ -195,8 +204,8 @@ Example C09_ex_autohash_witness : forall pr gr,
 Proof. exact autohash_witness. Qed.
 Print Assumptions C09_ex_autohash_witness.
 
-Example C09_ex_unquote_impl_truncates :
-  unquote_impl [34; 97; 98; 99; 92; 85; 70; 70; 70; 70; 70; 70; 70; 70; 100; 101; 102; 34] = Ok [97; 98; 99] /\
-  unquote_spec [34; 97; 98; 99; 92; 85; 70; 70; 70; 70; 70; 70; 70; 70; 100; 101; 102; 34] = Err ESyntax.
-Proof. exact unquote_impl_truncates. Qed.
-Print Assumptions C09_ex_unquote_impl_truncates.
+Example C09_ex_unquote_big_U_rejected :
+  unquote_impl [34; 97; 98; 99; 92; 85; 70; 70; 70; 70; 70; 70; 70; 70; 100; 101; 102; 34] = Err ESyntax /\
+  unquote_int32 [34; 97; 98; 99; 92; 85; 70; 70; 70; 70; 70; 70; 70; 70; 100; 101; 102; 34] = Ok [97; 98; 99].
+Proof. exact unquote_big_U_rejected. Qed.
+Print Assumptions C09_ex_unquote_big_U_rejected.
